@@ -64,8 +64,16 @@ Theorem C08_main : forall i, inclass_C08 i = true -> C08_holds i (model_C08 i).
 Proof. exact RenderProof.model_holds. Qed.
 Print Assumptions C08_main.
 
+(* under a naming convention with a constraint_name token, code that names a constraint with a plain string where the
+   operation object had a conv() name does not pass the decider: the convention would be applied a second time *)
+Theorem C08_plain_for_conv_rejected : forall tn s st,
+  check_C08 (mkCfg (lit "op") (lit "sa") false true, [TOp tn None (ODropConstraint (Conv s) None)])
+            (mkOut (Some st) (Some [TOp tn None (ODropConstraint (Plain (mkId s None)) None)]) true) = false.
+Proof. intros. unfold check_C08, exec_names_ok, names_agree. reflexivity. Qed.
+Print Assumptions C08_plain_for_conv_rejected.
+
 (* ---------------------------------------------------------------- what is false of the faithful model *)
-Definition cfg0 : cfg := mkCfg (lit "op") (lit "sa") false.
+Definition cfg0 : cfg := mkCfg (lit "op") (lit "sa") false false.
 Definition id0 (s:string) : ident := mkId (lit s) None.
 Definition col0 (d:option sdefault) : column :=
   mkCol (id0 "c") (mkTy TySa [lit "String"] []) d None true false None.
@@ -73,19 +81,19 @@ Definition col0 (d:option sdefault) : column :=
 (* a string server default with a quote at either end loses it: _render_server_default strips them *)
 Definition w_default : c08_in := (cfg0, [TOp (id0 "t") None (OAddColumn (col0 (Some (SdStr (lit "'x'")))))]).
 Theorem C08_eval_refuted_default_quotes : ~ C08_holds w_default (model_C08 w_default).
-Proof. intros [_ H]. vm_compute in H. discriminate. Qed.
+Proof. intros [_ [H _]]. vm_compute in H. discriminate. Qed.
 Print Assumptions C08_eval_refuted_default_quotes.
 
 (* quoted_name(..., quote=True): _ident keeps the characters and drops the flag *)
 Definition w_quote : c08_in := (cfg0, [TDropTable (mkId (lit "plain") (Some true)) None None false]).
 Theorem C08_eval_refuted_quote_flag : ~ C08_holds w_quote (model_C08 w_quote).
-Proof. intros [_ H]. vm_compute in H. discriminate. Qed.
+Proof. intros [_ [H _]]. vm_compute in H. discriminate. Qed.
 Print Assumptions C08_eval_refuted_quote_flag.
 
 (* the rendered drop_table has no columns: the DROP TYPE of a native Enum column is lost *)
 Definition w_droptype : c08_in := (cfg0, [TDropTable (id0 "t") None None true]).
 Theorem C08_eval_refuted_drop_table_types : ~ C08_holds w_droptype (model_C08 w_droptype).
-Proof. intros [_ H]. vm_compute in H. discriminate. Qed.
+Proof. intros [_ [H _]]. vm_compute in H. discriminate. Qed.
 Print Assumptions C08_eval_refuted_drop_table_types.
 
 (* ---------------------------------------------------------------- non-vacuity *)
@@ -96,7 +104,7 @@ Definition ex_table : table :=
     [CPk [id0 "n"] (Conv (lit "pk_t")); CUq [id0 "n"] (Plain (id0 "uq'1")) (Some true) None; CCk (lit "n > 0") NoName]
     (Some (lit "tbl 'c'")) [lit "TEMPORARY"] (Some true).
 Definition ex_input : c08_in :=
-  (mkCfg (lit "op") (lit "sa") true,
+  (mkCfg (lit "op") (lit "sa") true true,
    [TCreateTable ex_table;
     TModify (id0 "t") (Some (id0 "s")) [(id0 "t", Some (id0 "s"), OCreateIndex (Conv (lit "ix")) [IxCol (id0 "a b"); IxExpr (lit "lower(x)")] (Some true) None);
                                         (id0 "t", Some (id0 "s"), OCreateTableComment (Some (lit "it's")) None)]]).
@@ -107,7 +115,7 @@ Example C08_tokens_nonvacuous :
 Proof. vm_compute. auto. Qed.
 (* a prefix with a quote and a module prefix other than op are inside the class now *)
 Example C08_repaired_inside_class :
-  inclass_C08 (mkCfg (lit "aop") (lit "sa") true,
+  inclass_C08 (mkCfg (lit "aop") (lit "sa") true false,
                [TCreateTable (mkTable (id0 "t") None [col0 None] [] None [lit "TEMP'ORARY"] None);
                 TModify (id0 "t") None [(id0 "t", None, ODropColumn (id0 "c"))]]) = true.
 Proof. vm_compute. reflexivity. Qed.
